@@ -100,7 +100,7 @@ def gen(rng, tier):
         if rng.random() < 0.5:
             rng.shuffle(new)
         if new:
-            steps.append({"op": "update", "feats": new, "form": rng.choice(["path", "list", "gen", "iter1", "string"])})
+            steps.append({"op": "update", "feats": new, "form": rng.choice(["path", "list", "gen", "iter1", "string"]), "foreign": rng.random() < 0.25})
     if rng.random() < 0.3:
         # re-import some stored lines unchanged with merge_strategy='replace': the graph must stay what it is
         pool_ = [f for st in steps for f in st.get("feats", [])]
@@ -219,6 +219,7 @@ def run(case):
 
         node = w.node()
         alive = False
+        stale_counters = False
         for si, st in enumerate(case["steps"]):
             if V:
                 break
@@ -251,8 +252,24 @@ def run(case):
             if this_fault:
                 req["faults"] = [{"kind": fault["kind"], "nth": fault["nth"], "mode": fault["mode"]}]
             pre = model.clone()
+            foreign = k == "update" and st.get("foreign") and alive and not case.get("memory") and not this_fault
+            if k == "update" and stale_counters and not foreign:
+                # (a handle whose id counters went stale behind another writer is reopened before it writes again)
+                call(node, {"op": "drop", "h": "h"})
+                call(node, {"op": "gc"})
+                call(node, {"op": "open", "h": "h", "db": "a.db"})
+                stale_counters = False
             try:
-                r = call(node, req)
+                if foreign:
+                    # another process updates the file while this handle, which has already answered queries, stays open
+                    fn = w.node()
+                    call(fn, {"op": "open", "h": "h", "db": "a.db"})
+                    r = call(fn, req)
+                    fn.close()
+                    stale_counters = True
+                    probes["updated_by_another_process_while_handle_open"] = 1
+                else:
+                    r = call(node, req)
             except NodeDied:
                 probes["crash_in_import"] = 1
                 alive = False
